@@ -17,6 +17,15 @@ Cases (JSON dicts) executed by `check_case` against the REAL library, each in an
                     file; no other key file was opened or created (builtins.open is wrapped, directory is diffed)
             phase 2 load into a NEW configuration object with the same assignment: every location holds the
                     plaintext again; no other key file was opened or created
+  classkey  config types made with make_type(..., key_filename=K1) as sub-configuration / nested / list items; instance
+            renamed to K2, parent naming K3; then save, loads / load / load_tree / map assignment into the
+            SAME configuration (which rebuilds the sub-configuration), save again, load into a fresh configuration
+            given the same names: only the key file of the nearest ancestor that names one is used (instance name
+            wins over class-level name).
+            NOT enumerated (scoped out): "class-level K1 with the instance set to None". After a rebuild the new
+            config-type instance names K1 again by its class declaration; the property speaks about the nearest
+            ancestor that names one in the state as it stands and gives no rule that UN-naming a class-level key
+            file on one instance has to survive the instance being replaced (the library has no marker for it).
   rekey     histories: the key file named by the root / a sub-configuration is changed (or unset) after the tree has
             (or has not) been used; the next save must use the key file now named by the nearest ancestor
 """
@@ -531,6 +540,119 @@ def check_case(tmp, case):
                 return fails
             touched_ok(w, "save after key-file change", wk, exp_names, before)
             _check_saved(env, _parse(fmt, out, cfg), plains, bad, wk, expected_now)
+    elif case["kind"] == "classkey":
+        # the config type names key file K1 at CLASS level (make_type(..., key_filename=K1) -> <type>); the instance
+        # may be renamed (<sub> = K2, or None = inherit) and the parent may name <root>; the sub-configuration is
+        # then rebuilt by loading / assigning a map into the SAME configuration; the names must persist
+        names, op, fmt = case["names"], case["op"], case["fmt"]
+        tpath = {"type": ("t",), "nested-type": ("a", "t"), "list-type": None}[shape]
+        if "instance-K2" in names:
+            exp = "sub"
+        elif "instance-None" in names:
+            exp = "root" if "parent" in names else "default"
+        else:
+            exp = "type"
+        exp_names = {exp}
+        wk = "class-level-key-file:%s/%s" % (names, op)
+
+        def make():
+            cfg = env.new_config()                  # root named iff 'root' in assign
+            if tpath is not None:
+                if "instance-K2" in names:
+                    _get(cfg, tpath)._key_filename = env.paths["sub"]
+                elif "instance-None" in names:
+                    _get(cfg, tpath)._key_filename = None
+            return cfg
+
+        def values_ok(cfg, phase, want):
+            ok = True
+            for loc, p in zip(env.locs, want):
+                v, e = _call(_get, cfg, loc)
+                if e is not None or v != p:
+                    bad(O_LOAD, wk, "%s: %s is %s, expected the plaintext" % (
+                        phase, ".".join(map(str, loc)), _exc(e) if e is not None else repr(v)[:50]))
+                    ok = False
+            return ok
+
+        with Watch(tmp) as w:
+            cfg = make()
+            env.populate(cfg, plains, "attr")
+            w.take()
+            before = present_now()
+            doc1, e = _call(cfg.dumps, fmt)
+            if e is not None:
+                bad(O_SHAPE, wk + "|raised", "first save raised %s" % _exc(e))
+                return fails
+            ok = touched_ok(w, "first save", wk, exp_names, before)
+            tree1 = _parse(fmt, doc1, cfg)
+            if not (_check_saved(env, tree1, plains, bad, wk, lambda loc: exp) and ok):
+                return fails
+            # ---- rebuild the sub-configuration inside the SAME configuration
+            want = plains
+            before = present_now()
+            if op == "save":
+                e = None
+            elif op == "loads-same":
+                _, e = _call(cfg.loads, doc1, fmt)
+            elif op == "load-file-same":
+                cfile = os.path.join(tmp, "config." + fmt)
+                with _REAL_OPEN(cfile, "wb") as fp:
+                    fp.write(doc1)
+                _, e = _call(cfg.load, cfile, fmt)
+                w.log = [x for x in w.log if x[0] != cfile]
+            elif op == "load_tree-encrypted":
+                _, e = _call(cfg.load_tree, tree1)
+            elif op == "load_tree-plain":
+                want = [p + "~2" for p in plains]
+                pt = {}
+                for loc, p in zip(env.locs, want):
+                    node = pt
+                    for i, seg in enumerate(loc[:-1]):
+                        if isinstance(seg, int):
+                            while len(node) <= seg:
+                                node.append({})
+                            node = node[seg]
+                        else:
+                            node = node.setdefault(seg, [] if isinstance(loc[i + 1], int) else {})
+                    node[loc[-1]] = p
+                _, e = _call(cfg.load_tree, pt)
+            elif op in ("assign-map-plain", "assign-map-encrypted"):
+                # assignment of a map (list of maps) to the sub-configuration field itself
+                fpath = env.locs[0][:1] if shape == "list-type" else tpath
+                if op == "assign-map-plain":
+                    want = [p + "~3" for p in plains]
+                    val = [{"s": p} for p in want] if shape == "list-type" else {"s": want[0]}
+                else:
+                    val = _tree_get(tree1, fpath)
+                _, e = _call(cfg.__setitem__, ".".join(fpath), val)
+            else:
+                raise ValueError(op)
+            if e is not None:
+                touched_ok(w, op, wk, exp_names, before)
+                bad(O_LOAD, wk, "%s into the same configuration raised %s" % (op, _exc(e)))
+                return fails
+            ok = touched_ok(w, op, wk, exp_names, before)
+            if not (values_ok(cfg, "after " + op, want) and ok):
+                return fails
+            # ---- save again: still the same key file
+            before = present_now()
+            doc2, e = _call(cfg.dumps, fmt)
+            if e is not None:
+                bad(O_SHAPE, wk + "|raised", "save after %s raised %s" % (op, _exc(e)))
+                return fails
+            ok = touched_ok(w, "save after " + op, wk, exp_names, before)
+            if not (_check_saved(env, _parse(fmt, doc2, cfg), want, bad, wk, lambda loc: exp) and ok):
+                return fails
+            # ---- fresh configuration given the same names
+            cfg2 = make()
+            w.take()
+            before = present_now()
+            _, e = _call(cfg2.loads, doc2, fmt)
+            touched_ok(w, "load into a fresh configuration", wk, exp_names, before)
+            if e is not None:
+                bad(O_LOAD, wk, "fresh configuration with the same names: loads raised %s" % _exc(e))
+                return fails
+            values_ok(cfg2, "fresh configuration", want)
     else:
         raise ValueError(case["kind"])
     return fails
@@ -591,6 +713,23 @@ def gen_cases(rng, tier):
                     yield {"kind": "saveload", "shape": shape, "assign": "root", "build": "attr" if n % 3 else "tree",
                            "method": method, "fmt": FORMATS[n % 5], "plain": "", "nbytes": nbytes,
                            "multibyte": multibyte, "keyfiles": kf}
+    # ---- class-level key files (make_type(..., key_filename=K1)), instance renaming, rebuilding in place
+    # the namings "+instance-None" (class-level name un-named on one instance) are scoped out: see module docstring
+    ck_names = {"type": ["class-K1", "class-K1+instance-K2", "class-K1+parent-K3", "class-K1+instance-K2+parent-K3"],
+                "list-type": ["class-K1", "class-K1+parent-K3"]}
+    ck_names["nested-type"] = ck_names["type"]
+    ck_ops = ["save", "loads-same", "load-file-same", "load_tree-encrypted", "load_tree-plain", "assign-map-plain",
+              "assign-map-encrypted"]
+    for shape in ("type", "nested-type", "list-type"):
+        for names in ck_names[shape]:
+            for op in ck_ops:
+                for method in METHODS:
+                    for fmt in (FORMATS if tier != "quick" else [FORMATS[n % 5], FORMATS[(n + 2) % 5]]):
+                        n += 1
+                        kf = {k: (rk() if n % 2 == 0 else None) for k in ("root", "sub", "type", "default")}
+                        yield {"kind": "classkey", "shape": shape, "assign": "root+type" if "parent" in names else "type",
+                               "names": names, "op": op, "method": method, "fmt": fmt, "plain": PLAINS[n % 2],
+                               "keyfiles": kf}
     rekeys = [("root", "root", "root->other"), ("root", "root", "root->unset"),
               ("n1", "root", "root->other"), ("n1", "root", "root->unset"),
               ("n2", "root", "root->other"), ("n3", "root", "root->other"), ("n123", "root", "root->other"),
@@ -624,7 +763,10 @@ def rac(tier: str, seed: int) -> dict:
                    "root+type) x build {attr, tree} x methods aes/xor/best x 5 formats; plaintexts ascii/unicode/"
                    "1 char/300 chars (2 of the 4 per combination in quick, rotating); key files pre-existing or created by the library "
                    "(alternating); exact secret lengths 1,15,16,17,31,32,33,48,64,100 bytes (ASCII and 2/3/4-byte UTF-8) x 16 "
-                   "shapes x 3 methods (root key file, format and build mode rotating); 21 key-file-change histories x used/not used x 3 methods x %s formats"
+                   "shapes x 3 methods (root key file, format and build mode rotating); class-level key files: 3 shapes x namings {class-K1, +instance-K2, +parent-K3, "
+                   "+instance-K2+parent-K3; list items: class-K1, +parent-K3} x 7 in-place rebuild histories x 3 methods "
+                   "x 2 formats (un-naming the class-level key file on one instance - instance set to None - is scoped "
+                   "out: the property gives no rule that it survives the instance being rebuilt); 21 key-file-change histories x used/not used x 3 methods x %s formats"
                    % ("2" if tier == "quick" else "5"), tier=tier, seed=seed)
     with sandbox() as tmp:
         n = 0
@@ -635,7 +777,7 @@ def rac(tier: str, seed: int) -> dict:
             fs = check_case(tmp, case)
             key = tuple(case[k] for k in ("kind", "shape", "assign", "method", "fmt")) + \
                 (case.get("build"), case.get("mode"), case.get("used"), case["plain"][:8], case.get("nbytes"),
-                 case.get("multibyte"))
+                 case.get("multibyte"), case.get("names"), case.get("op"))
             rec.case(key=key, nontrivial=True,
                      sample=dict(case, keyfiles="...") if n % 397 == 1 else None)
             for obl, wk, what in fs:
